@@ -242,7 +242,10 @@ def _get_all_filtered_from_db(context, filters):
         ))
     if 'prefix' in filters:
         query = query.filter(
-            models.Trait.name.like(str(filters['prefix'] + '%')))
+            # The prefix is text, not a pattern: "_" and "%" in it match
+            # themselves only.
+            models.Trait.name.startswith(
+                str(filters['prefix']), autoescape=True))
     if 'associated' in filters:
         if filters['associated']:
             query = query.join(
